@@ -152,18 +152,6 @@ example : shapeOk 4 (.union false (.cons 0 (.prim 4) true .nil))
       [⟨.prim 4, 1, 0, some ⟨[1], 0, 1, 0⟩, [[7, 0, 0, 0]], []⟩]⟩ = true ∧
     skipCount (.union false (.cons 0 (.prim 4) true .nil)) 4 = (2, 4) := by decide
 
-/-- the excluded case is a real mismatch: a run-end column written under V4 carries a validity
-buffer (`has_validity_bitmap` is true below V5) that neither `skip_field` nor `create_array`
-consumes -/
-example : shapeOk 4 (.ree 4 (.prim 4))
-    ⟨.ree 4 (.prim 4), 1, 0, some ⟨[1], 0, 1, 0⟩, [],
-      [⟨.prim 4, 1, 0, some ⟨[1], 0, 1, 0⟩, [[1, 0, 0, 0]], []⟩,
-       ⟨.prim 4, 1, 0, some ⟨[1], 0, 1, 0⟩, [[7, 0, 0, 0]], []⟩]⟩ = true ∧
-    (flatten ⟨.ree 4 (.prim 4), 1, 0, some ⟨[1], 0, 1, 0⟩, [],
-      [⟨.prim 4, 1, 0, some ⟨[1], 0, 1, 0⟩, [[1, 0, 0, 0]], []⟩,
-       ⟨.prim 4, 1, 0, some ⟨[1], 0, 1, 0⟩, [[7, 0, 0, 0]], []⟩]⟩).2.length = 5 ∧
-    (skipCount (.ree 4 (.prim 4)) 4).2 = 4 := by decide
-
 end WholeArray
 
 /-! ## (b) framing and body layout -/
